@@ -22,7 +22,8 @@ def good_value(rng, p):
     if conv == "dotted":
         if "callback" in name:
             return "harness.wmod.cb"
-        return rng.choice(["harness.wmod.w", "harness.wmod.w", "harness.wmod.w", "harness.wmod.notcoro"])
+        return rng.choice(["harness.wmod.w", "harness.wmod.w", "harness.wmod.w", "harness.wmod.notcoro", "harness.wmod.boom",
+                           "harness.wmod.cur", "harness.wmod.cur"])
     if conv == "literal":
         if name == "args":
             return rng.choice(["(1,)", "(1,2)", "()", "[5]"])
@@ -38,14 +39,15 @@ def good_value(rng, p):
 
 def bad_value(rng, p):
     conv = p["conv"]
+    # `==SUPPRESS==` is argparse's own sentinel string: typed by a client it is a value like any other
     if conv == "int":
-        return rng.choice(["x", "1.5", "1e3", "--1", "0x"])
+        return rng.choice(["x", "1.5", "1e3", "--1", "0x", "==SUPPRESS=="])
     if conv == "float":
-        return rng.choice(["x", "1,5"])
+        return rng.choice(["x", "1,5", "==SUPPRESS=="])
     if conv == "dotted":
-        return rng.choice(["harness.wmod.nope", "harness.wmod.w.nope", "nope7.nope", "harness..w"])
+        return rng.choice(["harness.wmod.nope", "harness.wmod.w.nope", "nope7.nope", "harness..w", "==SUPPRESS=="])
     if conv == "literal":
-        return rng.choice(["[1,", "foo", "1+", "{1:}", "(1,,)"])
+        return rng.choice(["[1,", "foo", "1+", "{1:}", "(1,,)", "==SUPPRESS=="])
     return rng.choice(GROUPS)
 
 
